@@ -437,6 +437,14 @@ func IsFieldAddr(v ssa.Value, owner, field string) (*ssa.FieldAddr, bool) {
 // IsFieldLoad reports whether v is a load of X.field (through FieldAddr or a
 // Field of a struct value).
 func IsFieldLoad(v ssa.Value, owner, field string) (base ssa.Value, ok bool) {
+	// a field of a named slice or map type converted to its plain type
+	for {
+		ct, isCT := v.(*ssa.ChangeType)
+		if !isCT {
+			break
+		}
+		v = ct.X
+	}
 	switch x := v.(type) {
 	case *ssa.UnOp:
 		if x.Op != token.MUL {
@@ -885,6 +893,105 @@ func PrefixHelperArg(call *ssa.Call) ssa.Value {
 		}
 	}
 	return nil
+}
+
+// SameListHelperArg: call invokes a function with a body every result of
+// which is one of its slice parameters itself (not a part of it), whatever
+// else the function does to the elements (a sort in place that hands its
+// list back); returns the argument passed for that parameter.
+func SameListHelperArg(call *ssa.Call) ssa.Value {
+	g := call.Common().StaticCallee()
+	if g == nil || g.Blocks == nil || g.Signature.Results().Len() != 1 {
+		return nil
+	}
+	var par *ssa.Parameter
+	for _, ret := range ReturnsOf(g) {
+		v := ret.Results[0]
+		for {
+			ct, ok := v.(*ssa.ChangeType)
+			if !ok {
+				break
+			}
+			v = ct.X
+		}
+		p := ParamOf(v)
+		if p == nil {
+			return nil
+		}
+		if _, isSlice := p.Type().Underlying().(*types.Slice); !isSlice || (par != nil && par != p) {
+			return nil
+		}
+		par = p
+	}
+	if par == nil {
+		return nil
+	}
+	for i, q := range g.Params {
+		if q == par && i < len(call.Common().Args) {
+			return call.Common().Args[i]
+		}
+	}
+	return nil
+}
+
+// PrefixHelperWindow: call invokes a prefix helper (PrefixHelperArg) whose
+// reslices all end at one of its integer parameters, taken only where the
+// list was found longer than it; returns the list argument and the argument
+// passed as the window.
+func PrefixHelperWindow(call *ssa.Call) (list, window ssa.Value, guarded bool) {
+	list = PrefixHelperArg(call)
+	if list == nil {
+		return nil, nil, false
+	}
+	g := call.Common().StaticCallee()
+	var win *ssa.Parameter
+	guarded = true
+	n := 0
+	ForEachInstr(g, false, func(in ssa.Instruction) {
+		sl, ok := in.(*ssa.Slice)
+		if !ok {
+			return
+		}
+		n++
+		hp, ok := sl.High.(*ssa.Parameter)
+		if !ok || sl.Low != nil || (win != nil && win != hp) {
+			guarded = false
+			return
+		}
+		win = hp
+		// the cut lies on the true side of len(list) > n (or >=)
+		okGuard := false
+		for _, b := range g.Blocks {
+			iff, isIf := b.Instrs[len(b.Instrs)-1].(*ssa.If)
+			if !isIf {
+				continue
+			}
+			op, x, y, okc := CondOf(iff.Cond)
+			if !okc {
+				continue
+			}
+			if y2, isLen := x.(*ssa.Call); isLen && CallName(y2) == "builtin.len" && Strip(y2.Common().Args[0]) == Strip(sl.X) && y == ssa.Value(hp) && (op == token.GTR || op == token.GEQ) {
+				if b.Succs[0] == sl.Block() || b.Succs[0].Dominates(sl.Block()) {
+					okGuard = true
+				}
+			}
+		}
+		if !okGuard {
+			guarded = false
+		}
+	})
+	if win == nil || n == 0 {
+		return nil, nil, false
+	}
+	for i, q := range g.Params {
+		if q == win && i < len(call.Common().Args) {
+			window = call.Common().Args[i]
+		}
+	}
+	if window == nil {
+		return nil, nil, false
+	}
+	return list, window, guarded
 }
 
 // ElementsFrom reports whether every element of slice v is an element of
